@@ -31,7 +31,7 @@ func (c *Ctx) permitFuncs(rule string) map[*ssa.Function]int {
 		if !ok || !engine.IsNamed(sl.Elem(), "internal/state", "Responder") {
 			continue
 		}
-		if seed == nil || m.Name() == "popResponders" {
+		if seed == nil || engine.ShortName(m) == "popResponders" {
 			seed = m
 		}
 	}
@@ -193,7 +193,7 @@ func c05(c *Ctx) {
 							R.Pass("R05.1", key, P.Pos(cs.Pos()), "permitExpunge is the constant false on this path")
 						} else {
 							R.FailPath("R05.1", key, P.Pos(cs.Pos()),
-								fmtf("while answering %s a flush is reached with permitExpunge=%s: EXPUNGE responses may be sent during FETCH/STORE/SEARCH", root.Name(), nb),
+								fmtf("while answering %s a flush is reached with permitExpunge=%s: EXPUNGE responses may be sent during FETCH/STORE/SEARCH", engine.ShortName(root), nb),
 								strings.Join(append(append([]string{}, it.path...), c.name(callee)), " -> "))
 							continue
 						}
@@ -519,10 +519,6 @@ func c05pop(c *Ctx, pf map[*ssa.Function]int) {
 
 func c05callers(c *Ctx) {
 	P, R := c.P, c.R
-	allowed := map[string]bool{
-		"internal/state.(*State).flushResponses": true,
-		"internal/state.(*State).PushResponder":  true,
-	}
 	idleFld := c.fieldOf("internal/state", "State", "idleCh")
 	n := 0
 	for _, f := range c.productFuncs() {
@@ -531,7 +527,7 @@ func c05callers(c *Ctx) {
 			isHandle := false
 			if cc.IsInvoke() && cc.Method.Name() == "handle" && engine.IsNamed(cc.Value.Type(), "internal/state", "Responder") {
 				isHandle = true
-			} else if sc := cc.StaticCallee(); sc != nil && sc.Name() == "handle" && engine.RecvNamed(sc) != nil {
+			} else if sc := cc.StaticCallee(); sc != nil && engine.ShortName(sc) == "handle" && engine.RecvNamed(sc) != nil {
 				rn := engine.RecvNamed(sc).Obj().Name()
 				if rn == "expunge" || rn == "targetedExists" || rn == "fetch" {
 					isHandle = true
@@ -546,11 +542,11 @@ func c05callers(c *Ctx) {
 				top = top.Parent()
 			}
 			key := fmtf("%s|Responder.handle", c.name(f))
-			if !allowed[c.name(top)] {
+			if !c.isAnchor(top, "internal/state.(*State).flushResponses", "internal/state.(*State).PushResponder") {
 				R.Fail("R05.3", key, P.Pos(cs.Pos()), "Responder.handle (which mutates the snapshot and produces EXISTS/EXPUNGE/FETCH) is invoked outside flushResponses/PushResponder")
 				continue
 			}
-			if top.Name() == "PushResponder" {
+			if c.isAnchor(top, "internal/state.(*State).PushResponder") {
 				// must be dominated by the non-nil edge of an idleCh nil test
 				ok := false
 				for _, b := range f.Blocks {
@@ -605,7 +601,7 @@ func c05callers(c *Ctx) {
 				for top.Parent() != nil {
 					top = top.Parent()
 				}
-				okw := top.Name() == "beginIdle" || top.Name() == "endIdle" || top.Name() == "NewState"
+				okw := c.isAnchor(top, "internal/state.(*State).beginIdle", "internal/state.(*State).endIdle", "internal/state.NewState")
 				R.Check(okw, "R05.3", fmtf("%s|store idleCh", c.name(f)), P.Pos(st.Pos()),
 					"State.idleCh written by beginIdle/endIdle", "State.idleCh is written outside beginIdle/endIdle: immediate (expunge-permitting) delivery could be active outside IDLE")
 			}
@@ -622,7 +618,7 @@ func isTaggedCall(call *ssa.Call, names ...string) bool {
 	}
 	match := false
 	for _, n := range names {
-		if sc.Name() == n {
+		if engine.ShortName(sc) == n {
 			match = true
 		}
 	}
@@ -649,8 +645,7 @@ func (c *Ctx) notSelectedEdges(f *ssa.Function) map[engine.Edge]bool {
 		switch t := cv.(type) {
 		case *ssa.Call:
 			if sc := t.Call.StaticCallee(); sc != nil {
-				n := c.name(sc)
-				if n == "internal/state.(*State).IsSelected" || n == "internal/state.(*Mailbox).Selected" {
+				if c.isAnchor(sc, "internal/state.(*State).IsSelected", "internal/state.(*Mailbox).Selected") {
 					out[engine.Edge{From: b, Succ: falseIx}] = true
 				}
 			}
@@ -687,8 +682,7 @@ func (c *Ctx) notSelectedEdges(f *ssa.Function) map[engine.Edge]bool {
 						allSel = false
 						break
 					}
-					n := c.name(sc)
-					if n != "internal/state.(*State).IsSelected" && n != "internal/state.(*Mailbox).Selected" {
+					if !c.isAnchor(sc, "internal/state.(*State).IsSelected", "internal/state.(*Mailbox).Selected") {
 						allSel = false
 					}
 				default:
@@ -820,7 +814,7 @@ func c05issued(c *Ctx, roots []*ssa.Function) {
 		}
 		for _, cs := range engine.Calls(root) {
 			g := cs.Common().StaticCallee()
-			if g == nil || len(g.Blocks) == 0 || engine.RelPkg(P.OwnPkgPath(g)) != "internal/session" || strings.HasPrefix(g.Name(), "handle") {
+			if g == nil || len(g.Blocks) == 0 || engine.RelPkg(P.OwnPkgPath(g)) != "internal/session" || strings.HasPrefix(engine.ShortName(g), "handle") {
 				continue
 			}
 			if seenRoot[g] {
@@ -902,7 +896,7 @@ func c05issued(c *Ctx, roots []*ssa.Function) {
 									continue
 								}
 								sc := ic.Call.StaticCallee()
-								if sc == nil || sc.Name() != "ItemExpungeIssued" {
+								if sc == nil || engine.ShortName(sc) != "ItemExpungeIssued" {
 									continue
 								}
 								// does it flow to a WithItems on the OK chain?
@@ -972,7 +966,7 @@ func okChainGets(okCall *ssa.Call, item *ssa.Call) bool {
 			switch t := r.(type) {
 			case *ssa.Call:
 				if len(t.Call.Args) > 0 && t.Call.Args[0] == chain[i] && t.Call.StaticCallee() != nil {
-					if t.Call.StaticCallee().Name() == "WithItems" && len(t.Call.Args) > 1 {
+					if engine.ShortName(t.Call.StaticCallee()) == "WithItems" && len(t.Call.Args) > 1 {
 						if engine.AnyBackward(t.Call.Args[1], engine.FlowOpts{AppendBase: true, AppendElems: true, Loads: true}, func(x ssa.Value) bool { return x == ssa.Value(item) }) {
 							return true
 						}
